@@ -26,9 +26,13 @@ def fail(detail):
     return False
 
 
-def parse(text, include_cc=True, extra_models=(), want_warnings=False):
+def parse(text, include_cc=True, extra_models=(), want_warnings=False, split_registration=False):
     p = DecFileParser.from_string(text)
-    if extra_models:
+    if extra_models and split_registration and len(extra_models) > 1:
+        h = len(extra_models) // 2
+        p.load_additional_decay_models(*extra_models[:h])        # names registered through two separate calls
+        p.load_additional_decay_models(*extra_models[h:])
+    elif extra_models:
         p.load_additional_decay_models(*extra_models)
     with warnings.catch_warnings(record=True) as w:
         warnings.simplefilter("always")
